@@ -233,6 +233,45 @@ Proof.
   - rewrite B. reflexivity.
 Qed.
 
+(* ---------- what goes out: the frames written, as the reference server of RFC 6455 decodes them (most recent first) ---------- *)
+Definition wview (w : bytes) : N * bytes :=
+  match server_decode w with Some (f, []) => (f_op f, f_payload f) | _ => (255, w) end.
+Fixpoint writes (tr : list titem) : list (N * bytes) :=
+  match tr with
+  | [] => []
+  | TWrite w :: r => wview w :: writes r
+  | _ :: r => writes r
+  end.
+(* the transport works: the socket is open, no write fault is scheduled, masking keys are 4 bytes *)
+Definition wok (c : conn) : Prop := k_sock c = true /\ k_wfaults c = [] /\ keys_ok c.
+
+Lemma wview_build op key p : length key = 4%nat -> op < 16 -> blen p < 9223372036854775808 -> wview (build op false key p) = (op, p).
+Proof. intros Hk Ho Hp. unfold wview. rewrite (build_roundtrip op false key p Hk Ho Hp). reflexivity. Qed.
+
+(* a frame that is not a Close, on a working transport: written, the transport still works *)
+Lemma send_frame_ok c op p : op <> OP_CLOSE -> op < 16 -> blen p < 9223372036854775808 ->
+  k_closed c = false -> k_closing c = false -> wok c ->
+  exists c1, send_frame c op false p = (c1, None) /\ writes (k_tr c1) = (op, p) :: writes (k_tr c) /\ wok c1.
+Proof.
+  intros Hop Ho Hp Hcl Hcg (Hs & Hw & Hk).
+  assert (Eo : (op =? OP_CLOSE) = false) by (apply N.eqb_neq; exact Hop).
+  unfold send_frame, pop_key. rewrite Eo.
+  assert (W : forall c0 key, k_sock c0 = true -> k_closed c0 = false -> k_closing c0 = false -> k_wfaults c0 = [] -> length key = 4%nat ->
+            exists c1, write c0 (build op false key p) false = (c1, None) /\ writes (k_tr c1) = (op, p) :: writes (k_tr c0) /\
+                       k_sock c1 = true /\ k_wfaults c1 = [] /\ k_keys c1 = k_keys c0).
+  { intros c0 key A B C D E. unfold write, pop_wfault. rewrite A, B, C, D. cbn [negb].
+    exists (emit (TWrite (build op false key p)) c0). split; [reflexivity|]. split.
+    - change (k_tr (emit (TWrite (build op false key p)) c0)) with (TWrite (build op false key p) :: k_tr c0).
+      cbn [writes]. rewrite (wview_build op key p E Ho Hp). reflexivity.
+    - repeat split; auto. }
+  destruct (k_keys c) as [|k ks] eqn:Ek.
+  - destruct (W c [x00; x00; x00; x00] Hs Hcl Hcg Hw eq_refl) as (c1 & E1 & W1 & S1 & F1 & K1).
+    exists c1. split; [exact E1|]. split; [exact W1|]. unfold wok, keys_ok. rewrite S1, F1, K1, Ek. repeat split; auto.
+  - unfold keys_ok in Hk. rewrite Ek in Hk. inversion Hk as [|? ? Hk1 Hk2]; subst.
+    destruct (W (c <| k_keys := ks |>) k) as (c1 & E1 & W1 & S1 & F1 & K1); try assumption.
+    exists c1. split; [exact E1|]. split; [exact W1|]. unfold wok, keys_ok. rewrite S1, F1, K1. cbn. repeat split; auto.
+Qed.
+
 Section Delivery.
   Variable cf : cfg.
   Variable app : strategy.
@@ -297,6 +336,40 @@ Section Delivery.
     - rewrite R3. cbn [msg_events k_tr emit]. change (k_tr (emit (TEv e) c0)) with (TEv e :: k_tr c0). cbn [msg_events].
       rewrite M0. destruct (is_msg_ev e); reflexivity.
   Qed.
+  (* ---------- the same steps seen from the wire, when no automatic Ping is due (ping_rate = 0) ---------- *)
+  Hypothesis rate0 : c_ping_rate cf = 0%Z.
+
+  Lemma regular_writes c : k_sent_close_time c = None ->
+    writes (k_tr (fst (regular cf app c))) = writes (k_tr c) /\ (wok c -> wok (fst (regular cf app c))).
+  Proof.
+    intros Hs. unfold regular. destruct (negb (k_ready c)); [auto|].
+    rewrite !deliver_passive, no_ping_timeout, rate0. cbn [Z.eqb negb andb].
+    set (t := session_time c).
+    destruct (k_poll_start c) as [ps|]; [destruct (_ >=? _)%Z|]; cbn [fst snd k_sent_close_time emit set];
+      try rewrite Hs; destruct (zpos (c_close_timeout cf)); cbn [fst]; auto.
+  Qed.
+
+  Definition ev_reply (e : ev) : list (N * bytes) := match e with EvPing p => [(OP_PONG, p)] | _ => [] end.
+
+  Lemma in_feed_yield_writes c e :
+    c_auto_pong cf = true -> k_closed c = false -> k_closing c = false -> k_sent_close_time c = None -> wok c ->
+    (match e with EvPing p => blen p <= 125 | EvClosing _ _ | EvClosed _ _ | EvReady _ _ => False | _ => True end) ->
+    wok (fst (in_feed_yield cf app c e)) /\ writes (k_tr (fst (in_feed_yield cf app c e))) = ev_reply e ++ writes (k_tr c).
+  Proof.
+    intros Hauto Hcl Hcg Hs Hw He. unfold in_feed_yield.
+    assert (O : exists c0, on_event cf c e = (c0, SOk) /\ wok c0 /\ writes (k_tr c0) = ev_reply e ++ writes (k_tr c) /\ k_sent_close_time c0 = None).
+    { destruct e; cbn [on_event ev_reply]; try (eexists; split; [reflexivity|split; [exact Hw|split; [reflexivity|exact Hs]]]); try contradiction.
+      - rewrite Hauto. cbn [api_call]. replace (125 <? blen payload) with false by (symmetry; apply N.ltb_ge; exact He).
+        destruct (send_frame_ok c OP_PONG payload ltac:(discriminate) ltac:(reflexivity) ltac:(lia) Hcl Hcg Hw) as (c0 & E0 & W0 & K0).
+        destruct (send_frame_core c OP_PONG false payload ltac:(discriminate)) as [(_&_&_&_&_&S6&_) _].
+        rewrite E0 in *. cbn [fst] in S6. exists c0. split; [reflexivity|]. split; [exact K0|]. split; [exact W0|congruence]. }
+    destruct O as (c0 & E0 & K0 & W0 & S0). rewrite E0. rewrite deliver_passive.
+    assert (Hs0 : k_sent_close_time (emit (TEv e) c0) = None) by exact S0.
+    destruct (regular_writes (emit (TEv e) c0) Hs0) as [R1 R2].
+    destruct (regular_quiet (emit (TEv e) c0) Hs0) as (Q1 & _).
+    destruct (regular cf app (emit (TEv e) c0)) as [c2 st2]. cbn [fst snd] in *. subst st2.
+    split; [apply R2; exact K0|]. rewrite R1. exact W0.
+  Qed.
 End Delivery.
 
 (* ====================================================================================================== *)
@@ -304,6 +377,20 @@ End Delivery.
 Inductive smsg := SText (p : bytes) | SBinary (p : bytes) | SPing (p : bytes) | SPong (p : bytes).
 Definition ev_of (m : smsg) : ev :=
   match m with SText p => EvText p | SBinary p => EvBinary p | SPing p => EvPing p | SPong p => EvPong p end.
+
+(* the Pongs a message list calls for, and the statement "exactly these were written, the transport still works" *)
+Definition pong_replies (ms : list smsg) : list (N * bytes) :=
+  flat_map (fun m => match m with SPing p => [(OP_PONG, p)] | _ => [] end) ms.
+Definition wfacts (cf : cfg) (c c1 : conn) (ms : list smsg) : Prop :=
+  c_ping_rate cf = 0%Z -> c_auto_pong cf = true -> wok c ->
+  wok c1 /\ writes (k_tr c1) = rev (pong_replies ms) ++ writes (k_tr c).
+Lemma wfacts_refl cf c : wfacts cf c c [].
+Proof. intros _ _ H. split; [exact H|reflexivity]. Qed.
+Lemma wfacts_trans cf a b c ms1 ms2 : wfacts cf a b ms1 -> wfacts cf b c ms2 -> wfacts cf a c (ms1 ++ ms2).
+Proof.
+  intros H1 H2 R A W. destruct (H1 R A W) as [W1 E1]. destruct (H2 R A W1) as [W2 E2]. split; [exact W2|].
+  rewrite E2, E1. unfold pong_replies. rewrite flat_map_app, rev_app_distr, app_assoc. reflexivity.
+Qed.
 
 Definition payload_of (fs : list frame) : bytes := concat (map f_payload fs).
 Definition is_text_msg (fs : list frame) : bool := match fs with f :: _ => f_op f =? OP_TEXT | [] => false end.
@@ -389,10 +476,13 @@ Section Delivery2.
     k_sent_close_time c = None ->
     (match e with EvPing p => blen p <= 125 | EvClosing _ _ | EvClosed _ _ | EvReady _ _ => False | _ => True end) ->
     exists c1, feed_yield cf app c e (fun c1 => (c1, SOk)) = (c1, SOk) /\ same_core c c1 /\
-               msg_events (k_tr c1) = (if is_msg_ev e then [e] else []) ++ msg_events (k_tr c).
+               msg_events (k_tr c1) = (if is_msg_ev e then [e] else []) ++ msg_events (k_tr c) /\
+               (c_ping_rate cf = 0%Z -> c_auto_pong cf = true -> k_closed c = false -> k_closing c = false -> wok c ->
+                wok c1 /\ writes (k_tr c1) = ev_reply e ++ writes (k_tr c)).
   Proof.
     intros Hs He. unfold feed_yield.
     destruct (in_feed_yield_msg cf app app_passive no_ping_timeout c e Hs He) as (A & B & C).
+    pose proof (fun r a cl cg w => in_feed_yield_writes cf app app_passive no_ping_timeout r c e a cl cg Hs w He) as D.
     destruct (in_feed_yield cf app c e) as [c1 st]. cbn [fst snd] in *. subst st. exists c1. auto.
   Qed.
 
@@ -434,7 +524,8 @@ Section Delivery2.
                k_ps c1 = k_ps c /\ k_closed c1 = false /\ k_closing c1 = false /\ k_deflate c1 = None /\
                k_sent_close_time c1 = None /\ k_frames c1 = open1 /\ Forall (fun f => f_rsv1 f = false) open1 /\
                data_head open1 /\
-               msg_events (k_tr c1) = rev (map ev_of ms) ++ msg_events (k_tr c) /\ k_sock c1 = k_sock c.
+               msg_events (k_tr c1) = rev (map ev_of ms) ++ msg_events (k_tr c) /\ k_sock c1 = k_sock c /\
+               wfacts cf c c1 ms.
   Proof.
     intros Hcl Hcg Hdf Hsc Hfr Hop Hdh Hr1 Href. unfold ref1 in Href.
     destruct (negb _) eqn:Eb; [discriminate|]. apply negb_false_iff in Eb. apply andb_true_iff in Eb as [Eop Elen].
@@ -447,10 +538,14 @@ Section Delivery2.
                k_ps c1 = k_ps c /\ k_closed c1 = false /\ k_closing c1 = false /\ k_deflate c1 = None /\
                k_sent_close_time c1 = None /\ k_frames c1 = open /\ Forall (fun f => f_rsv1 f = false) open /\
                data_head open /\
-               msg_events (k_tr c1) = [e] ++ msg_events (k_tr c) /\ k_sock c1 = k_sock c).
+               msg_events (k_tr c1) = [e] ++ msg_events (k_tr c) /\ k_sock c1 = k_sock c /\
+               (c_ping_rate cf = 0%Z -> c_auto_pong cf = true -> wok c -> wok c1 /\ writes (k_tr c1) = ev_reply e ++ writes (k_tr c))).
     { intros e m Hc Hb Hm He Hme. unfold on_item, stream_frame. rewrite Hc, Hb, Hm.
-      destruct (yield_plain c e Hsc He) as (c1 & E1 & (S1&S2&S3&S4&S5&S6&S7&S8) & M1). rewrite E1, Hme in *.
-      exists c1. repeat split; try congruence. }
+      destruct (yield_plain c e Hsc He) as (c1 & E1 & (S1&S2&S3&S4&S5&S6&S7&S8) & M1 & W1). rewrite E1, Hme in *.
+      exists c1. split; [reflexivity|].
+      assert (Wf : c_ping_rate cf = 0%Z -> c_auto_pong cf = true -> wok c -> wok c1 /\ writes (k_tr c1) = ev_reply e ++ writes (k_tr c))
+        by (intros R A W; exact (W1 R A Hcl Hcg W)).
+      repeat (split; [first [congruence | assumption]|]). exact Wf. }
     assert (Hctl125 : is_control (f_op f) = true -> blen (f_payload f) <= 125).
     { intros Hc. unfold validate_err in Ev. cbn [hdr_of h_op h_fin h_r1 h_r2 h_r3] in Ev. rewrite Hc in Ev.
       apply orb_false_iff in Ev as [_ Ev]. cbn [andb] in Ev. apply N.ltb_ge in Ev. exact Ev. }
@@ -481,10 +576,12 @@ Section Delivery2.
               exists c1, (let '(c2, r) := build_message c0 fs in
                           match r with inl m => on_message cf app c2 m | inr e => let '(c3, st) := raise_in_feed cf app c2 e in (c3, st, FBreak) end)
                          = (c1, SOk, FContinue) /\ same_core c0 c1 /\ open1 = [] /\
-                         msg_events (k_tr c1) = rev (map ev_of ms) ++ msg_events (k_tr c)).
+                         msg_events (k_tr c1) = rev (map ev_of ms) ++ msg_events (k_tr c) /\ wfacts cf c0 c1 ms).
     { intros fs f0 rest0 Efs Hfs Htx Hkind c0 Hc0 Htr Hrf Hfin. rewrite Hfin in Hrf.
       rewrite (build_plain c0 fs f0 rest0 Efs Hfs). cbv zeta.
       assert (Hs0 : k_sent_close_time c0 = None) by (destruct Hc0 as (_&_&_&_&_&S&_); congruence).
+      assert (Hcl0 : k_closed c0 = false) by (destruct Hc0 as (_&_&_&S&_); congruence).
+      assert (Hcg0 : k_closing c0 = false) by (destruct Hc0 as (_&_&S&_); congruence).
       destruct (is_text_msg fs) eqn:Et.
       - rewrite Htx. replace (OP_TEXT =? OP_BINARY) with false by reflexivity.
         assert (Eb2 : (f_op f0 =? OP_BINARY) = false).
@@ -492,12 +589,14 @@ Section Delivery2.
         rewrite Eb2. destruct (uvalidate UAcc (payload_of fs)); [|discriminate].
         destruct (utf8_validb (payload_of fs)); [|discriminate]. inversion Hrf; subst ms open1.
         unfold on_message.
-        destruct (yield_plain c0 (EvText (payload_of fs)) Hs0 I) as (c1 & E1 & S1 & M1). rewrite E1.
-        exists c1. split; [reflexivity|]. split; [exact S1|]. split; [reflexivity|]. rewrite M1, Htr. reflexivity.
+        destruct (yield_plain c0 (EvText (payload_of fs)) Hs0 I) as (c1 & E1 & S1 & M1 & W1). rewrite E1.
+        exists c1. split; [reflexivity|]. split; [exact S1|]. split; [reflexivity|]. split; [rewrite M1, Htr; reflexivity|].
+        intros R A W. exact (W1 R A Hcl0 Hcg0 W).
       - rewrite Htx in Hkind. cbn [orb] in Hkind. rewrite Hkind. inversion Hrf; subst ms open1.
         unfold on_message.
-        destruct (yield_plain c0 (EvBinary (payload_of fs)) Hs0 I) as (c1 & E1 & S1 & M1). rewrite E1.
-        exists c1. split; [reflexivity|]. split; [exact S1|]. split; [reflexivity|]. rewrite M1, Htr. reflexivity. }
+        destruct (yield_plain c0 (EvBinary (payload_of fs)) Hs0 I) as (c1 & E1 & S1 & M1 & W1). rewrite E1.
+        exists c1. split; [reflexivity|]. split; [exact S1|]. split; [reflexivity|]. split; [rewrite M1, Htr; reflexivity|].
+        intros R A W. exact (W1 R A Hcl0 Hcg0 W). }
     unfold on_item, stream_frame. rewrite Ectl, Hfr.
     destruct open as [|o0 orest].
     - (* first frame of a data message *)
@@ -512,13 +611,14 @@ Section Delivery2.
         destruct Ev1 as [Ev1|Ev1]; [apply N.leb_gt in Ev1|apply N.leb_gt in Ev1]; unfold OP_CONT in *; lia. }
       destruct (f_fin f) eqn:Efin.
       + destruct (Data [f] f [] eq_refl ltac:(constructor; auto) eq_refl Hkind c (same_core_refl c) eq_refl Href eq_refl)
-          as (c1 & E1 & (S1&S2&S3&S4&S5&S6&S7&S8) & -> & M1).
-        exists c1. split; [exact E1|]. repeat split; try congruence; try constructor; try exact I.
+          as (c1 & E1 & (S1&S2&S3&S4&S5&S6&S7&S8) & -> & M1 & W1).
+        exists c1. split; [exact E1|].
+        repeat split; try congruence; try constructor; try exact I; try exact M1; try (apply W1; assumption).
       + (* a first fragment: parked, no event *)
         assert (Hopen : ms = [] /\ open1 = [f]).
         { cbn [is_text_msg] in Href. destruct (f_op f =? OP_TEXT); [destruct (uvalidate UAcc (payload_of [f])); [|discriminate]|];
             inversion Href; auto. }
-        destruct Hopen as [-> ->]. eexists. split; [reflexivity|]. cbn. repeat split; auto.
+        destruct Hopen as [-> ->]. eexists. split; [reflexivity|]. cbn. repeat split; auto; try (unfold wok, keys_ok in *; cbn; tauto).
     - (* a continuation frame *)
       destruct (f_op f =? OP_CONT) eqn:Econt; cbn [negb] in *; [|discriminate].
       inversion Hop as [|? ? Ho0 Horest]; subst.
@@ -539,19 +639,23 @@ Section Delivery2.
           rewrite Eb2. destruct (uvalidate UAcc (payload_of ((o0 :: orest) ++ [f]))); [|discriminate].
           destruct (utf8_validb (payload_of ((o0 :: orest) ++ [f]))); [|discriminate]. inversion Href; subst ms open1.
           unfold on_message.
-          destruct (yield_plain c0 (EvText (payload_of ((o0 :: orest) ++ [f]))) Hs0 I) as (c1 & E1 & (S1&S2&S3&S4&S5&S6&S7&S8) & M1). rewrite E1.
-          exists c1. split; [reflexivity|]. cbn in S1, S2, S3, S4, S5, S6, S8. repeat split; try congruence; try constructor; try exact I.
-          rewrite M1. reflexivity.
+          destruct (yield_plain c0 (EvText (payload_of ((o0 :: orest) ++ [f]))) Hs0 I) as (c1 & E1 & (S1&S2&S3&S4&S5&S6&S7&S8) & M1 & W1). rewrite E1.
+          exists c1. split; [reflexivity|]. cbn in S1, S2, S3, S4, S5, S6, S8.
+          assert (Wf : wok c -> c_ping_rate cf = 0%Z -> c_auto_pong cf = true -> wok c1 /\ writes (k_tr c1) = writes (k_tr c))
+            by (intros W R A; exact (W1 R A Hcl Hcg W)).
+          repeat split; try congruence; try constructor; try exact I; try (rewrite M1; reflexivity); try (apply Wf; assumption).
         * cbn [orb] in Hdh. rewrite Hdh. inversion Href; subst ms open1.
           unfold on_message.
-          destruct (yield_plain c0 (EvBinary (payload_of ((o0 :: orest) ++ [f]))) Hs0 I) as (c1 & E1 & (S1&S2&S3&S4&S5&S6&S7&S8) & M1). rewrite E1.
-          exists c1. split; [reflexivity|]. cbn in S1, S2, S3, S4, S5, S6, S8. repeat split; try congruence; try constructor; try exact I.
-          rewrite M1. reflexivity.
+          destruct (yield_plain c0 (EvBinary (payload_of ((o0 :: orest) ++ [f]))) Hs0 I) as (c1 & E1 & (S1&S2&S3&S4&S5&S6&S7&S8) & M1 & W1). rewrite E1.
+          exists c1. split; [reflexivity|]. cbn in S1, S2, S3, S4, S5, S6, S8.
+          assert (Wf : wok c -> c_ping_rate cf = 0%Z -> c_auto_pong cf = true -> wok c1 /\ writes (k_tr c1) = writes (k_tr c))
+            by (intros W R A; exact (W1 R A Hcl Hcg W)).
+          repeat split; try congruence; try constructor; try exact I; try (rewrite M1; reflexivity); try (apply Wf; assumption).
       + assert (Hopen : ms = [] /\ open1 = (o0 :: orest) ++ [f]).
         { change (is_text_msg ((o0 :: orest) ++ [f])) with (f_op o0 =? OP_TEXT) in Href.
           destruct (f_op o0 =? OP_TEXT); [destruct (uvalidate UAcc (payload_of ((o0 :: orest) ++ [f]))); [|discriminate]|];
             inversion Href; auto. }
-        destruct Hopen as [-> ->]. eexists. split; [reflexivity|]. cbn. repeat split; auto.
+        destruct Hopen as [-> ->]. eexists. split; [reflexivity|]. cbn. repeat split; auto; try (unfold wok, keys_ok in *; cbn; tauto).
   Qed.
 End Delivery2.
 
@@ -680,14 +784,16 @@ Section Delivery3.
     idle c open -> data_head open -> Forall plain fs -> forms_ok fs lfs ->
     ref_messages open fs = Some (ms, open') ->
     exists c', feedf cf app c (encode_all fs lfs) = (c', SOk) /\ idle c' open' /\ data_head open' /\
-               msg_events (k_tr c') = rev (map ev_of ms) ++ msg_events (k_tr c) /\ k_sock c' = k_sock c.
+               msg_events (k_tr c') = rev (map ev_of ms) ++ msg_events (k_tr c) /\ k_sock c' = k_sock c /\
+               wfacts cf c c' ms.
   Proof.
     induction fs as [|f rest IH]; intros lfs c open ms open' Hidle Hdh Hpl Hforms Href.
     - destruct lfs; [|contradiction]. cbn in Href. inversion Href; subst ms open'. cbn [encode_all].
       pose proof Hidle as (Hcl & _ & _ & _ & _ & _ & u & Hab & _).
       rewrite feedf_unfold by (eapply at_boundary_ok; exact Hab). unfold feed_body. rewrite Hcl.
       rewrite fp_pull_unfold by (eapply at_boundary_ok; exact Hab). unfold pull_body.
-      rewrite set_ps_same. exists c. auto.
+      rewrite set_ps_same. exists c. split; [reflexivity|]. split; [exact Hidle|]. split; [exact Hdh|].
+      split; [reflexivity|]. split; [reflexivity|apply wfacts_refl].
     - destruct lfs as [|lf lfs]; [contradiction|]. destruct Hforms as [Hform Hforms].
       inversion Hpl as [|? ? Hpf Hprest]; subst.
       cbn [ref_messages] in Href.
@@ -701,14 +807,16 @@ Section Delivery3.
       cbn [encode_all].
       rewrite feedf_unfold by (eapply at_boundary_ok; exact Hab). unfold feed_body. rewrite Hcl, Hpull.
       destruct (frame_step cf app app_passive no_ping_timeout (c <| k_ps := s' |>) open f ms1 open1)
-        as (c1 & Eitem & S1 & S2 & S3 & S4 & S5 & S6 & S7 & S8 & S9 & S10); auto.
+        as (c1 & Eitem & S1 & S2 & S3 & S4 & S5 & S6 & S7 & S8 & S9 & S10 & S11); auto.
       { destruct Hpf as (A & _). exact A. }
       rewrite Eitem.
-      destruct (IH lfs c1 open1 ms2 open2) as (c' & Efeed & Hidle' & Hdh' & Hmsgs & Hsock); auto.
+      destruct (IH lfs c1 open1 ms2 open2) as (c' & Efeed & Hidle' & Hdh' & Hmsgs & Hsock & Hw'); auto.
       { unfold idle. repeat split; auto. exists (u_after f (is_text_msg open) u u'). split.
         - rewrite S1. cbn. rewrite <- Hita. exact Hab'.
         - exact Hts. }
-      exists c'. split; [exact Efeed|]. split; [exact Hidle'|]. split; [exact Hdh'|]. split; [|rewrite Hsock, S10; reflexivity].
+      assert (S11' : wfacts cf c c1 ms1) by exact S11.
+      exists c'. split; [exact Efeed|]. split; [exact Hidle'|]. split; [exact Hdh'|].
+      split; [|split; [rewrite Hsock, S10; reflexivity|eapply wfacts_trans; eauto]].
       rewrite Hmsgs, S9. cbn. rewrite map_app, rev_app_distr, app_assoc. reflexivity.
   Qed.
 
@@ -720,10 +828,23 @@ Section Delivery3.
     idle c open -> data_head open -> Forall plain fs -> forms_ok fs lfs ->
     ref_messages open fs = Some (ms, open') -> concat ds = encode_all fs lfs ->
     exists c', feed_chunks cf app c ds = (c', SOk) /\ idle c' open' /\ data_head open' /\
-               msg_events (k_tr c') = rev (map ev_of ms) ++ msg_events (k_tr c) /\ k_sock c' = k_sock c.
+               msg_events (k_tr c') = rev (map ev_of ms) ++ msg_events (k_tr c) /\ k_sock c' = k_sock c /\
+               wfacts cf c c' ms.
   Proof.
     intros Hi Hd Hp Hf Hr Hc. rewrite feed_chunks_concat by (eapply idle_ok; exact Hi). rewrite Hc.
     eapply deliver_frames; eauto.
+  Qed.
+  (* C14 for a whole stream: exactly one Pong per Ping, with the Ping's payload, in the order the Pings arrived, and nothing
+     else is written by the library -- whatever the fragmentation, the interleaving and the cut into reads *)
+  Corollary pongs_in_order fs lfs ds c open ms open' :
+    c_auto_pong cf = true -> c_ping_rate cf = 0%Z ->
+    idle c open -> data_head open -> Forall plain fs -> forms_ok fs lfs ->
+    ref_messages open fs = Some (ms, open') -> concat ds = encode_all fs lfs -> wok c ->
+    exists c', feed_chunks cf app c ds = (c', SOk) /\ wok c' /\ writes (k_tr c') = rev (pong_replies ms) ++ writes (k_tr c).
+  Proof.
+    intros Ha Hr Hi Hd Hp Hf Href Hc Hw.
+    destruct (deliver_frames_chunked fs lfs ds c open ms open' Hi Hd Hp Hf Href Hc) as (c' & E & _ & _ & _ & _ & W).
+    destruct (W Hr Ha Hw) as [W1 W2]. exists c'. auto.
   Qed.
 End Delivery3.
 
@@ -834,7 +955,7 @@ Section Delivery4.
           assert (Hokc : fp_ok (k_ps c)) by (pose proof (fp_pull_ok s0 a Hok0) as H; rewrite Hp in H; exact H).
           rewrite feedf_unfold by exact Hokc. unfold feed_body. rewrite Hcl, Hpull.
           destruct (frame_step cf app app_passive no_ping_timeout (c <| k_ps := s' |>) open f ms1 open1)
-            as (c1 & Eitem & S1 & S2 & S3 & S4 & S5 & S6 & S7 & S8 & S9 & S10); auto.
+            as (c1 & Eitem & S1 & S2 & S3 & S4 & S5 & S6 & S7 & S8 & S9 & S10 & _); auto.
           { destruct Hpf as (A & _). exact A. }
           rewrite Eitem.
           assert (Hidle1 : idle c1 open1).
@@ -869,7 +990,7 @@ Section Delivery4.
           rewrite Hab2 in Hpull2. rewrite Hab'. exact Hpull2. }
         assert (Hokc : fp_ok (k_ps c)) by (pose proof (fp_pull_ok s0 a Hok0) as H; rewrite Hp in H; exact H).
         destruct (frame_step cf app app_passive no_ping_timeout (c <| k_ps := s' |>) open f ms1 open1)
-          as (c1 & Eitem & S1 & S2 & S3 & S4 & S5 & S6 & S7 & S8 & S9 & S10); auto.
+          as (c1 & Eitem & S1 & S2 & S3 & S4 & S5 & S6 & S7 & S8 & S9 & S10 & _); auto.
         { destruct Hpf as (A & _). exact A. }
         assert (Hidle1 : idle c1 open1).
         { unfold idle. repeat split; auto. exists (u_after f (is_text_msg open) u u'). split; [|exact Hts].
